@@ -18,8 +18,8 @@ type Mutex struct {
 	held int64
 }
 
-func (m *Mutex) Lock()         { m.m.Lock(); atomic.AddInt64(&m.n, 1); atomic.StoreInt64(&m.held, 1) }
-func (m *Mutex) Unlock()       { atomic.StoreInt64(&m.held, 0); m.m.Unlock() }
+func (m *Mutex) Lock()          { m.m.Lock(); atomic.AddInt64(&m.n, 1); atomic.StoreInt64(&m.held, 1) }
+func (m *Mutex) Unlock()        { atomic.StoreInt64(&m.held, 0); m.m.Unlock() }
 func (m *Mutex) vAcquires() int { return int(atomic.LoadInt64(&m.n)) }
 func (m *Mutex) vHeld() bool    { return atomic.LoadInt64(&m.held) != 0 }
 
